@@ -1182,12 +1182,18 @@ func c18Carrier(c *eng.Ctx) {
 				ok := true
 				for _, v := range vals {
 					copied := false
-					for _, o := range eng.Origins(v) {
+					os, opaque := c18OriginsThroughHelpers(v, f)
+					for _, o := range os {
 						if g, _ := readOf(o.Val); sameVar(g, fv) {
 							copied = true
 						}
 					}
-					if !copied {
+					switch {
+					case copied:
+					case opaque:
+						ok = false
+						c.Undecided(f, site, at[i].Pos(), "the rebuilt WrapInfo sets "+fv.Name()+" to a value computed by a call that is not followed ("+eng.Expr(v)+"): whether the "+fv.Name()+" of the WrapInfo it replaces is among its sources cannot be evaluated")
+					default:
 						ok = false
 						c.Violation(f, site, at[i].Pos(), "the rebuilt WrapInfo sets "+fv.Name()+" to "+eng.ExprDeep(v)+", never to the "+fv.Name()+" of the WrapInfo it replaces", nil)
 					}
@@ -1285,4 +1291,67 @@ func c18WithHelpers(c *eng.Ctx, sites []eng.CallSite, allowed map[string]string)
 		}
 	}
 	return out
+}
+
+// c18OriginsThroughHelpers: eng.Origins continued through the results of
+// functions of the same package / closures of f that merely compute a value
+// from their arguments (a merge of two settings extracted into a helper): the
+// result of such a call originates from whatever its returns hand back, the
+// helper's parameters being followed to the arguments of that call. opaque:
+// some origin is the result of a call that could not be followed.
+func c18OriginsThroughHelpers(v ssa.Value, f *ssa.Function) (out []eng.Origin, opaque bool) {
+	type item struct {
+		o     eng.Origin
+		depth int
+	}
+	var work []item
+	for _, o := range eng.Origins(v) {
+		work = append(work, item{o, 0})
+	}
+	seen := map[ssa.Value]bool{}
+	for len(work) > 0 {
+		it := work[0]
+		work = work[1:]
+		if it.o.Val == nil || seen[it.o.Val] {
+			continue
+		}
+		seen[it.o.Val] = true
+		if it.o.Kind != "call" {
+			out = append(out, it.o)
+			continue
+		}
+		var cl *ssa.Call
+		idx := 0
+		switch x := it.o.Val.(type) {
+		case *ssa.Extract:
+			cl, _ = x.Tuple.(*ssa.Call)
+			idx = x.Index
+		case *ssa.Call:
+			cl = x
+		}
+		var g *ssa.Function
+		if cl != nil && it.depth < 3 {
+			g = nfBody(cl, f)
+		}
+		if g == nil {
+			opaque = true
+			out = append(out, it.o)
+			continue
+		}
+		for _, r := range eng.Returns(g) {
+			if r.Block().Comment == "recover" || idx >= len(r.Results) {
+				continue
+			}
+			vals, _, escaped := eng.ReturnVals(r, idx)
+			if escaped {
+				opaque = true
+			}
+			for _, rv := range vals {
+				for _, oo := range nfOriginsF(rv, &nfFrame{call: cl}) {
+					work = append(work, item{oo.Origin, it.depth + 1})
+				}
+			}
+		}
+	}
+	return out, opaque
 }
